@@ -90,11 +90,11 @@ Section Crash.
   (* stop after n consumed results, restart from the file with W2 workers *)
   Theorem crash_restart_total : forall n W2 sched1 sched2, n <= T - c0 -> 1 <= W2 ->
     exists s0 s', init_phase (W + 2) (start c0 T W) = Some s0 /\
-      let sk := main_prefix n s0 sched1 in
-      restart_cstep sk = c0 + n /\ cstep sk = c0 + n /\ length (completed sk) = n /\
-      NoDup (completed sk ++ pending sk) /\
-      scheduler (restart_cstep sk) T W2 sched2 = Some s' /\
-      length (completed sk) + length (completed s') = T - c0 /\
+      restart_cstep (main_prefix n s0 sched1) = c0 + n /\ cstep (main_prefix n s0 sched1) = c0 + n /\
+      length (completed (main_prefix n s0 sched1)) = n /\
+      NoDup (completed (main_prefix n s0 sched1) ++ pending (main_prefix n s0 sched1)) /\
+      scheduler (restart_cstep (main_prefix n s0 sched1)) T W2 sched2 = Some s' /\
+      length (completed (main_prefix n s0 sched1)) + length (completed s') = T - c0 /\
       cstep s' = T /\ pending s' = [] /\ restart_cstep s' = T /\ restart_locked s' = [].
   Proof.
     intros n W2 sched1 sched2 Hn HW2.
@@ -102,7 +102,7 @@ Section Crash.
     destruct (prefix_J n 0 s0 sched1 HJ0 ltac:(lia)) as (HJ & _). cbn [Nat.add] in HJ.
     destruct HJ as (J1 & J2 & J3 & J4 & J5 & J6 & J7).
     destruct (scheduler_steps_exact (c0 + n) T W2 HW2 ltac:(lia) sched2) as (s' & Rs & B1 & B2 & B3 & B4 & B5 & B6 & B7).
-    exists s'. split; [exact R|]. cbv zeta. rewrite J7.
+    exists s'. split; [exact R|]. rewrite J7.
     repeat split; auto; try lia.
     apply (Permutation_NoDup (Permutation_sym J6)). apply seq_NoDup.
   Qed.
